@@ -10,7 +10,7 @@
    implementation by tools/harness/c05.py. *)
 From P7 Require Import Prelude PyPrims Number Header Cost CostProofs.
 Require P7.Decomp.
-From P7 Require DecompGen.
+From P7 Require DecompGen ReadFully.
 From P7gen Require DecompChain.
 Open Scope Z_scope.
 
@@ -231,3 +231,29 @@ Theorem C05_gen_decompress_is_model_call :
   Decomp.decompress dstep (DecompGen.st_of stage self fp) ml rd = Ok (DecompGen.st_of stage o' fp', out).
 Proof. exact DecompGen.gen_decompress_ok_inv. Qed.
 Print Assumptions C05_gen_decompress_is_model_call.
+
+(* ---- helpers.read_fully (every header and packed-stream read of the reader): what it asks the file
+   for.  For every file, position, declared size, block size >= 1 and EVERY behaviour of the file
+   (any schedule of short or zero-length answers) no read() asks for more than one block nor for more
+   than is still missing, and there are at most size+1 read() calls -- a header declaring 2^63 bytes
+   on a 40-byte file costs one block-sized request, not an allocation of the declared size (the
+   seeded change C05-9 removed the `min`).  ReadFully.rf_requests is run against the sizes the
+   Python actually asks a scheduled file for (GenDispatch FN 1088, tools/harness/prims.py in the
+   C01/C02/C16/C17/C19 checks); C01_read_fully_any_schedule is the functional half. ---- *)
+Theorem C05_read_fully_requests_bounded :
+  forall bs : nat, (1 <= bs)%nat ->
+  forall (fuel : nat) (data : bytes) (pos remaining : nat) (caps : list nat),
+    Forall (fun r : nat => (1 <= r)%nat /\ (r <= bs)%nat /\ (r <= remaining)%nat)
+           (ReadFully.rf_requests fuel data pos remaining bs caps).
+Proof. exact ReadFully.rf_requests_bounded. Qed.
+Print Assumptions C05_read_fully_requests_bounded.
+
+Theorem C05_read_fully_call_count :
+  forall (fuel : nat) (data : bytes) (pos remaining bs : nat) (caps : list nat),
+    (length (ReadFully.rf_requests fuel data pos remaining bs caps) <= S remaining)%nat.
+Proof. exact ReadFully.rf_requests_count. Qed.
+Print Assumptions C05_read_fully_call_count.
+
+Example C05_read_fully_requests_example :
+  ReadFully.rf_requests 8 [1;2;3;4;5;6;7;8;9;10]%Z 2 7 4 [3;1;2]%nat = [4; 4; 3; 1]%nat.
+Proof. exact ReadFully.rf_requests_example. Qed.
